@@ -565,7 +565,29 @@ def r11e(model: Model, rr: RuleResult):
             rr.bad(fi, fi.node, f"glyphs are permuted by {dg} but the parallel array by {dp} (the inverse permutation): for any 3-cycle the coverage-indexed "
                    f"records are attached to the wrong glyphs", construct=f"_sort_by_gid: glyphs {dg} vs parallel {dp}")
     else:
-        raise AnalysisError("_sort_by_gid: neither the pair-sort nor the argsort idiom")
+        # idiom C: sort the glyphs alone, then look every entry up by position:  pl[:] = [pl[A.index(x)] for x in B]
+        sg = [st for st in walk_body(fi) if isinstance(st, ast.Assign) and isinstance(st.targets[0], ast.Name) and isinstance(st.value, ast.Call) and norm(st.value.func) == "sorted"
+              and st.value.args and norm(st.value.args[0]) == g]
+        look = [st for st in ast.walk(fi.node) if isinstance(st, ast.Assign) and norm(st.targets[0]) == f"{pl}[:]" and isinstance(st.value, ast.ListComp)
+                and len(st.value.generators) == 1 and isinstance(st.value.elt, ast.Subscript) and norm(st.value.elt.value) == pl
+                and isinstance(st.value.elt.slice, ast.Call) and callee_tail(st.value.elt.slice) == "index"]
+        if not (sg and look):
+            raise AnalysisError("_sort_by_gid: neither the pair-sort, the argsort nor the index-lookup idiom")
+        sname = sg[0].targets[0].id
+        lc = look[0].value
+        searched, over = norm(lc.elt.slice.func.value), norm(lc.generators[0].iter)
+        if (searched, over) == (g, sname):
+            wg = [st for st in walk_body(fi) if isinstance(st, ast.Assign) and norm(st.targets[0]) == f"{g}[:]"]
+            if wg and cfg.path_exists(cfg.node_for(wg[0]), cfg.node_for(look[0])):
+                rr.bad(fi, look[0], f"the entries are looked up in {g} after {g}[:] was already overwritten with the sorted order: the parallel array is left unpermuted",
+                       construct="_sort_by_gid: lookup after the glyph list was overwritten")
+            else:
+                rr.ok(f"index idiom: new entry i is the old entry of the glyph now at i ({pl}[{g}.index(x)] for x in {sname})")
+        elif (searched, over) == (sname, g):
+            rr.bad(fi, look[0], f"the parallel array is rebuilt as [{pl}[{sname}.index(x)] for x in {g}]: that applies the INVERSE of the sorting permutation (entry i becomes the old entry at the "
+                   f"sorted rank of old glyph i); for any 3-cycle the coverage-indexed records are attached to the wrong glyphs", construct="_sort_by_gid: parallel array permuted by the inverse permutation")
+        else:
+            raise AnalysisError("_sort_by_gid: index-lookup idiom over unexpected lists")
     # the caller passes the table's own list objects (in-place update is what makes the change visible to the font)
     afi = model.func("reorder_glyphs", "ReorderCoverage.apply")
     acfg = cfg_of(afi)
@@ -704,3 +726,34 @@ def r11g(model: Model, rr: RuleResult):
         rr.ok("reorder_glyphs: setGlyphOrder is always followed by the walk that applies the reorder rules")
     else:
         rr.bad_shape(fi, fi.node, "reorder_glyphs can set the new glyph order without walking the layout tables", construct="reorder_glyphs: setGlyphOrder not followed by the rule loop")
+
+
+@RULES.rule("C11", "R11h", "load_fully really loads: a font is (re)opened with lazy=False before the layout tables are walked", floor=2)
+def r11h(model: Model, rr: RuleResult):
+    fi = model.func("util", "load_fully")
+    rl = model.func("util", "_reload")
+    from ..model import arg as _arg11
+    opens = [c for c in calls_in(fi) if callee_tail(c) == "TTFont"]
+    reloads = [c for c in calls_in(fi) if callee_tail(c) == "_reload"]
+    if not reloads or not opens:
+        rr.bad_shape(fi, fi.node, "load_fully does not open a path / reload a lazily opened font", construct="load_fully: TTFont / _reload")
+        return
+    for c in opens:
+        lz = kwarg(c, "lazy")
+        if lz is not None and norm(lz) == "False":
+            rr.ok("load_fully(Path): TTFont(..., lazy=False)")
+        else:
+            rr.bad(fi, c, "a font given by path is opened lazily: tables keep undecoded readers that the reorder pass does not see", construct=f"load_fully: {short(c)}")
+    default = None
+    a_ = rl.node.args
+    pos = [x.arg for x in a_.args]
+    if "lazy" in pos and len(a_.defaults) >= len(pos) - pos.index("lazy"):
+        default = a_.defaults[pos.index("lazy") - (len(pos) - len(a_.defaults))]
+    for c in reloads:
+        lz = _arg11(c, 1, "lazy")
+        eff = lz if lz is not None else default
+        if eff is not None and norm(eff) == "False":
+            rr.ok("a lazily opened TTFont is reloaded with lazy=False")
+        else:
+            rr.bad(fi, c, f"{short(c)} reloads the font with lazy={norm(eff) if eff is not None else '?'}: COLR v1 sub-tables and long record arrays stay undecoded, the reorder pass "
+                   f"skips them and they are decoded against the NEW glyph order at save time", construct=f"load_fully: {short(c)} lazy")
